@@ -37,8 +37,9 @@ ASSUMPTIONS = [
     "object histories (cases with 'ops', exact stream, die form): the real Netlist / Die pair goes through reads (bounding_box, "
     "area_overlap, find_location), Module.create_stog, allocations, in-place and setter moves / resizes of the rectangles of the "
     "movable modules, module-centre writes and Module.recenter_rectangles; after EVERY operation every module is read back through "
-    "the public attributes (plus the identity test 'rectangles[0].center is module.center') and must equal the state of the model "
-    "(Alloc/InitialHist.v); every allocation must agree with the model on the values read back just before it and is judged by "
+    "the public attributes and must equal the state of the model (Alloc/InitialHist.v; after Module.create_stog up to order and "
+    "roles of the rectangles; the identity 'rectangles[0].center is module.center' is read back and followed by the model, not "
+    "demanded); every allocation must agree with the model on the values read back just before it and is judged by "
     "the oracle on those values.  The die's cells are checked to be unchanged by every operation; fixed modules are never moved; "
     "recenter_rectangles is only used where the centroid is a dyadic rational (so that its quotient is exact in binary64)",
 ]
